@@ -1,4 +1,4 @@
-HOOK_COMMITS = ["74bf6ff", "82c1591", "9aba3ab", "7b80cf4", "aa851e5", "4f43e9e", "0d9cb6c", "ac67f30", "f87827f", "49c2432", "902f705", "c680004", "8c2f76b", "4c8724e", "094947e", "99d293b"]
+HOOK_COMMITS = ["74bf6ff", "82c1591", "9aba3ab", "7b80cf4", "aa851e5", "4f43e9e", "0d9cb6c", "ac67f30", "f87827f", "49c2432", "902f705", "c680004", "8c2f76b", "4c8724e", "094947e", "99d293b", "af34f89"]
 
 ALL = ["C%02d" % i for i in range(1, 21)]
 
